@@ -6,7 +6,10 @@ import (
 	"sync"
 	"time"
 
+	prom "github.com/prometheus/client_golang/prometheus"
 	tally "github.com/uber-go/tally/v4"
+	"github.com/uber-go/tally/v4/m3"
+	tprom "github.com/uber-go/tally/v4/prometheus"
 
 	"verifharness/mon"
 )
@@ -18,6 +21,9 @@ func runC20(c *mon.Ctx) {
 		c20Constructors(c, r.Fork(1))
 		c20NoMutation(c, r.Fork(2))
 		c20NoMutationCustom(c, r.Fork(22))
+		if i%3 == 0 {
+			c20NoMutationReporters(c, r.Fork(23))
+		}
 		c20Isolation(c, r.Fork(3))
 		// fresh roots on which several goroutines make the first use of colliding
 		// bucket sets at the same moment (all of them miss the empty cache together)
@@ -573,4 +579,51 @@ func (u c20Units) AsDurations() []time.Duration {
 		out[i] = time.Duration(v * float64(time.Second))
 	}
 	return out
+}
+
+// c20NoMutationReporters: the caller's slice also stays as it is when the
+// scope sits on one of the real reporters, which receive the specification in
+// AllocateHistogram (the Prometheus client refuses unsorted or duplicated
+// bounds with a panic of its own - outside C17's quantifier and not C20's
+// business, recovered here; only the caller's slice is looked at).
+func c20NoMutationReporters(c *mon.Ctx, r *mon.Rand) {
+	isDur := r.Bool()
+	vspec := r.ValueSpec(12)
+	dspec := r.DurationSpec(12)
+	vorig := append([]float64(nil), vspec...)
+	dorig := append([]time.Duration(nil), dspec...)
+	backends := map[string]func() tally.CachedStatsReporter{
+		"prometheus": func() tally.CachedStatsReporter {
+			return tprom.NewReporter(tprom.Options{Registerer: prom.NewRegistry(), OnRegisterError: func(error) {}})
+		},
+		"m3": func() tally.CachedStatsReporter {
+			rep, err := m3.NewReporter(m3.Options{HostPorts: []string{mon.DeadPort()}, Service: "svc", Env: "test"})
+			if err != nil {
+				return nil
+			}
+			return rep
+		},
+	}
+	for name, mk := range backends {
+		func() {
+			defer func() { recover() }()
+			rep := mk()
+			if rep == nil {
+				return
+			}
+			root, closer := tally.NewRootScope(tally.ScopeOptions{CachedReporter: rep, OmitCardinalityMetrics: true, Separator: "_"}, 0)
+			defer closer.Close()
+			sc := root.Tagged(map[string]string{"k": "v"})
+			if isDur {
+				sc.Histogram("h", tally.DurationBuckets(dspec)).RecordDuration(1)
+			} else {
+				sc.Histogram("h", tally.ValueBuckets(vspec)).RecordValue(1)
+			}
+		}()
+		c.Event("reporter-backed-no-mutation-probes", 1)
+		if !sameBitsV(vspec, vorig) || fmt.Sprint(dspec) != fmt.Sprint(dorig) {
+			c.Violation("caller-slice-modified", fmt.Sprintf("Histogram() on a scope over the %s reporter changed the caller's slice: before %v %v after %v %v", name, vorig, dorig, vspec, dspec))
+			return
+		}
+	}
 }
